@@ -11,11 +11,19 @@
 //
 // Search: all action sequences of length ≤ 2 over the full action set and of
 // length ≤ 4 (quick) / ≤ 6 (thorough) over a 5-action core; every sequence is
-// replayed on a freshly built (or freshly decoded) value, followed by a full
+// replayed on a freshly built (or freshly decoded) value, followed by a
 // snapshot. Invariant in every state: the snapshot equals the baseline (each
 // action's result on an untouched value), i.e. no read changes the encoding,
 // any other accessor's result, a repeated call's result or the caller's
 // slices. States whose invariant fails are reported and not expanded.
+//
+// Length-1 sequences always get the full snapshot; when one differs, every
+// observation is repeated on its own fresh replay so that the violating
+// method is named exactly (the snapshot is itself a sequence of reads). For
+// longer sequences a per-value execution budget decides between the full
+// snapshot and the reduced one (core actions, ToBytes, caller-held slices, the
+// results of the sequence's own calls); the evidence says how many values got
+// which.
 package c20
 
 import (
@@ -197,11 +205,11 @@ func catalogue(thorough bool) []inst {
 // ------------------------------------------------------------------ Run
 
 func Run(c *fw.Ctx) {
-	c.SetRule("a case is one action sequence replayed on a freshly built/decoded value followed by a full snapshot; sequences are distinct by construction (distinct (value, sequence) pairs); non-trivial = sequences of length ≥ 1 (at least one read-only method executed on the real object before the snapshot is compared)")
-	c.Assume("actions = niladic exported methods with ≥ 1 result found by reflection (package roview); methods without result (SetBroadcast/SetUnicast), with arguments, or named Set*/Add*/Update*/Del*/Delete*/With* are mutators or out of scope",
+	c.SetRule("a case is one action sequence replayed on a freshly built/decoded value followed by a snapshot comparison; sequences are distinct by construction (distinct (value, sequence) pairs); non-trivial = sequences of length ≥ 1 (at least one read-only method executed on the real object before the snapshot is compared)")
+	c.Assume("actions = niladic exported methods with ≥ 1 result found by reflection (package roview); methods without result (SetBroadcast/SetUnicast), with arguments, or whose name starts with the word Set/Add/Update/Del/Delete/With (CamelCase boundary: AddOption yes, Addresses no) are mutators or out of scope",
 		"only methods of types declared in github.com/insomniacslk/dhcp are actions (methods of net.IP, time.Duration … are the standard library's)",
 		"results are compared through a structural renderer that calls no method of the value: exported fields, pointers followed, map keys sorted; unexported fields (private caches) are not observations",
-		"at most 3 elements (first two and last) of any slice are visited when enumerating actions on elements; composite actions are one accessor plus one method on (an element / exported field of) its result",
+		"at most 3 elements (first two and last) of any slice are visited when enumerating actions on elements; actions before the first call reach the value, its exported fields and elements of its exported slice fields; composite actions are one accessor plus one method on its result, on an element of the result or on an exported field of the result",
 		"no action depends on the clock: dhcpv6.GetTime()-based constructors are not used, DUID-LLT times are fixed")
 	b := bounds{full: 2, core: 4, budget: 100_000, budgetCore: 40_000}
 	if c.Thorough() {
@@ -232,7 +240,11 @@ func Run(c *fw.Ctx) {
 	var next atomic.Int64
 	var wg sync.WaitGroup
 	var totalPaths, nontriv atomic.Int64
-	sampled := map[string]int{}
+	type sample struct {
+		idx int
+		m   map[string]any
+	}
+	sampled := map[string]sample{}
 	for w := 0; w < fw.Workers(); w++ {
 		wg.Add(1)
 		go func() {
@@ -286,15 +298,15 @@ func Run(c *fw.Ctx) {
 				for m := range st.methods {
 					a.methods[m] = true
 				}
-				if sampled[st.kind] < 1 && len(st.coreExprs) > 1 {
-					sampled[st.kind]++
-					seq := st.coreExprs
-					if len(seq) > b.core {
-						seq = seq[:b.core]
+				if cur, seen := sampled[st.kind]; (!seen || i < cur.idx) && len(st.coreExprs) > 1 {
+					k := st.coreExprs
+					long := make([]string, 0, b.core)
+					for j := 0; j < b.core; j++ {
+						long = append(long, k[(j*2)%len(k)])
 					}
-					c.Sample(map[string]any{"value": ins[i].name, "kind": st.kind, "actions": st.actions,
-						"core": st.coreExprs, "one_core_sequence": strings.Join(seq, " ; ") + " ; <snapshot>",
-						"states": st.states, "transitions": st.trans, "paths": st.paths})
+					sampled[st.kind] = sample{i, map[string]any{"value": ins[i].name, "kind": st.kind, "construction": short(ins[i].src, 400), "actions": st.actions, "core_actions": k,
+						"sequences_executed_(each_on_a_fresh_value,_then_snapshot)": []string{k[0], k[len(k)-1] + " ; " + k[0], strings.Join(long, " ; ")},
+						"states": st.states, "transitions": st.trans, "paths": st.paths, "method_executions": st.execs}}
 				}
 				mu.Unlock()
 			}
@@ -309,6 +321,11 @@ func Run(c *fw.Ctx) {
 		kinds = append(kinds, k)
 	}
 	sort.Strings(kinds)
+	for _, k := range kinds {
+		if sm, ok := sampled[k]; ok {
+			c.Sample(sm.m)
+		}
+	}
 	var S, T, P, X int64
 	multi, values := 0, 0
 	surface := map[string]any{}
@@ -351,7 +368,7 @@ func Run(c *fw.Ctx) {
 	c.Extra("bounds", map[string]any{"full_action_set_max_length": b.full, "core_max_length": b.core,
 		"per_value_execution_budget_above_which_the_reduced_snapshot_is_compared(length-2 full set)": b.budget,
 		"per_value_execution_budget_above_which_the_reduced_snapshot_is_compared(core search)":       b.budgetCore,
-		"reduced_snapshot": "core actions + the value's ToBytes + caller-held slices + the results of the sequence's own calls (length-1 sequences always get the full snapshot, each observation on its own fresh replay)"})
+		"reduced_snapshot": "core actions + the value's ToBytes + caller-held slices + the results of the sequence's own calls (length-1 sequences always get the full snapshot on the same value; if anything differs every observation is repeated on its own fresh replay for exact attribution)"})
 	c.Sample(map[string]any{"sequence_shapes": []string{
 		"len 1 (full set): v := fresh(); v.String(); snapshot(v) == baseline",
 		"len 2 (full set): v := fresh(); v.Options.IANA(); v.Summary(); snapshot(v) == baseline",
